@@ -26,6 +26,8 @@ pub trait Elem: Sized {
     const HAS_DROP: bool = true;
     fn mk(v: i64) -> Self;
     fn val(&self) -> i64;
+    /// does Clone panic for this value (elements of the PC type with a value ending in 13)
+    fn clone_panics(_v: i64) -> bool { false }
     /// what the model must be fed for this value (ZST collapses everything to 0)
     fn norm(v: i64) -> i64 {
         v
@@ -73,6 +75,7 @@ impl Drop for EZ { fn drop(&mut self) { log_drop(0) } }
 impl Clone for EZ { fn clone(&self) -> Self { EZ } }
 
 /// heap-owning
+#[derive(Debug)]
 pub struct Tok(pub Box<i64>);
 impl Elem for Tok {
     fn mk(v: i64) -> Self { Tok(Box::new(v)) }
@@ -104,3 +107,9 @@ impl Clone for A64 { fn clone(&self) -> Self { A64(self.0) } }
 pub struct TokA64(pub Box<i64>);
 impl Elem for TokA64 { fn mk(v: i64) -> Self { TokA64(Box::new(v)) } fn val(&self) -> i64 { *self.0 } }
 impl Drop for TokA64 { fn drop(&mut self) { log_drop(*self.0) } }
+
+/// 8 bytes with a destructor whose Clone PANICS for values ending in ..13 (unwind safety of operations that clone elements)
+pub struct PC(pub i64);
+impl Elem for PC { fn mk(v: i64) -> Self { PC(v) } fn val(&self) -> i64 { self.0 } fn clone_panics(v: i64) -> bool { v.rem_euclid(1000) == 13 } }
+impl Drop for PC { fn drop(&mut self) { log_drop(self.0) } }
+impl Clone for PC { fn clone(&self) -> Self { if self.0.rem_euclid(1000) == 13 { panic!("clone of a poisoned element") } PC(self.0) } }
